@@ -22,6 +22,8 @@ pub struct Reprint {
     pub fatal: bool,
     /// diagnostics at Warn level or above produced by parsing the input
     pub warn_or_worse: Vec<String>,
+    /// their kinds
+    pub kinds: Vec<String>,
 }
 
 pub fn reprint(path: &str, src: &str, mangle: bool) -> Result<Reprint, String> {
@@ -35,12 +37,17 @@ pub fn reprint(path: &str, src: &str, mangle: bool) -> Result<Reprint, String> {
             .filter(|w| w.level() >= ParseErrorLevel::Warn || w.kind == glass_easel_template_compiler::parse::ParseErrorKind::UnknownMetaTag)
             .map(|w| format!("{}", w))
             .collect();
+        let kinds: Vec<String> = all
+            .iter()
+            .filter(|w| w.level() >= ParseErrorLevel::Warn)
+            .map(|w| format!("{:?}", w.kind))
+            .collect();
         let fatal = false;
         let mut st = Stringifier::new(String::new(), path, src);
         st.set_mangling(mangle);
         template.stringify_write(&mut st).map_err(|e| e.to_string())?;
         let (text, _map) = st.finish();
-        Ok::<Reprint, String>(Reprint { text, warn_or_worse: warn, fatal: fatal || fatal_seen })
+        Ok::<Reprint, String>(Reprint { text, warn_or_worse: warn, kinds, fatal: fatal || fatal_seen })
     }));
     match r {
         Ok(x) => x,
@@ -248,6 +255,17 @@ pub fn run_explicit_opt(ew: &Value, want_log: bool, apply_known: bool) -> RunRes
                 }
             } else {
                 stats.add("probe.ill_formed_source", 1);
+                // an ill-formed source: its printed form may repeat diagnostics of the original
+                // (a junk attribute name is printed as it is), but a kind of diagnostic the
+                // original did not have is new
+                stats.add("probe.diagnostic_kinds_checked_ill_formed", 1);
+                if let Some(k) = r2.kinds.iter().find(|k| !r1.kinds.contains(k)) {
+                    return violated(
+                        if mangle { "reprint_new_diagnostic_kind_mangled" } else { "reprint_new_diagnostic_kind" },
+                        format!("file {}: the re-printed text of an ill-formed source has a diagnostic of a kind the original did not have: {} (original: {:?})\n source : {}\n printed: {}", p, k, r1.kinds, s, r1.text),
+                        stats,
+                    );
+                }
             }
             out.push((p.clone(), r1.text));
         }
